@@ -345,7 +345,7 @@ def check(ctx, thorough, blbin, server, work):
         attribute(ctx, mm, s["mismatches"], "vectors")
 
     # ---- 3. random sessions validated by TLC -----------------------------------------------------
-    sessions, conns = (120, 150) if thorough else (24, 80)
+    sessions, conns = (120, 150) if thorough else (20, 80)
     p = run_bin(blbin, ["random", server, work, str(sessions), str(conns)], timeout=1800)
     if p.returncode != 0:
         raise vlib.ToolError("blacklist random failed: " + p.stderr[-1500:])
